@@ -104,6 +104,8 @@ var gfSpecs = []gfSpec{
 	{pkg: "", recv: "Editor", fn: "ApplyOpts", lean: "editorApplyOpts"},
 	{pkg: "", recv: "Editor", fn: "applyGParagraphsOpts", lean: "editorApplyGParagraphsOpts"},
 	{pkg: "", recv: "Editor", fn: "ApplyParagraphsOpts", lean: "editorApplyParagraphsOpts"},
+	// the placeholder search: of |sep|+1 consecutive candidates one does not occur among the |sep| runes of the separator
+	{pkg: "", fn: "affixPlaceholder", lean: "affixPlaceholder", fuel: []string{"v_lineSep.length + 1"}},
 	{pkg: "", recv: "Editor", fn: "WrapOpts", lean: "editorWrapOpts"},
 	{pkg: "", recv: "Editor", fn: "IndentOpts", lean: "editorIndentOpts"},
 	{pkg: "", recv: "Editor", fn: "InsertTableOpts", lean: "editorInsertTableOpts"},
@@ -169,6 +171,7 @@ var gfPrims = map[string]gfPrim{
 	"strings.Index":                         {"(Go.stringsIndex cx $0 $1)", false, nil},
 	"strings.ToUpper":                       {"(Go.stringsToUpper cx $0)", false, nil},
 	"unicode.IsSpace":                       {"(Go.unicodeIsSpace cx $0)", false, nil},
+	"strings.ContainsRune":                  {"(Go.stringsContainsRune $0 $1)", false, nil},
 	gfMod + "/internal/util.RangeToIndexes": {"(rangeToIndexes $0 $1 $2)", false, nil},
 	// library functions that are not translated: the hand model's function
 	"(" + gfMod + ".Editor).Chars":                {"Editor.chars cx $0 $1 $2", true, nil},
@@ -494,6 +497,19 @@ func isInt(t types.Type) bool {
 		return b.Info()&types.IsInteger != 0 && b.Kind() != types.Int32 && b.Kind() != types.UntypedRune
 	}
 	return false
+}
+
+func isRune(t types.Type) bool {
+	if b, ok := t.Underlying().(*types.Basic); ok {
+		return b.Kind() == types.Int32 || b.Kind() == types.UntypedRune
+	}
+	return false
+}
+
+// is e the constant 1?
+func (c *gfCtx) isOne(e ast.Expr) bool {
+	tv, ok := c.info.Types[e]
+	return ok && tv.Value != nil && tv.Value.Kind() == constant.Int && constant.Compare(tv.Value, token.EQL, constant.MakeInt64(1))
 }
 
 func isBool(t types.Type) bool {
@@ -842,6 +858,10 @@ func (c *gfCtx) vexpr(e ast.Expr) string {
 			r := c.vexpr(x.Y)
 			return "(" + l + " ++ " + r + ")"
 		}
+		if isRune(t) && x.Op == token.ADD && c.isOne(x.Y) && !c.isOne(x.X) {
+			// r + 1 on a rune: the next code point
+			return "(Go.runeSucc cx " + c.vexpr(x.X) + ")"
+		}
 		if isInt(t) {
 			l := c.vexpr(x.X)
 			switch x.Op {
@@ -1127,6 +1147,10 @@ func (c *gfCtx) call(x *ast.CallExpr) string {
 			gfFail("conversion arity")
 		}
 		from, to := gfType(c.typeOf(x.Args[0])), gfType(tv.Type)
+		if isRune(c.typeOf(x.Args[0])) && isStringy(tv.Type) {
+			// string(r) for a rune r: the one-rune string
+			return "(Go.stringOfRune " + c.vexpr(x.Args[0]) + ")"
+		}
 		if from == "Pct" && to == "Int" { // T2: `int(float64(n) * p)`, the only float arithmetic translated
 			if mul, ok := unparen(x.Args[0]).(*ast.BinaryExpr); ok && mul.Op == token.MUL {
 				if n, ok := c.floatOfInt(mul.X); ok {
@@ -1866,10 +1890,16 @@ func (c *gfCtx) stmts(list []ast.Stmt, k func() []string) []string {
 		if s.Tok == token.DEC {
 			op = "-"
 		}
-		if !isInt(c.typeOf(s.X)) {
+		v := "(" + c.vexpr(s.X) + " " + op + " (1 : Int))"
+		if isRune(c.typeOf(s.X)) {
+			// r++ on a rune: the next code point
+			if s.Tok != token.INC {
+				gfFail("-- on a rune")
+			}
+			v = "(Go.runeSucc cx " + c.vexpr(s.X) + ")"
+		} else if !isInt(c.typeOf(s.X)) {
 			gfFail("%s on %s", s.Tok, c.typeOf(s.X).String())
 		}
-		v := "(" + c.vexpr(s.X) + " " + op + " (1 : Int))"
 		out := c.take()
 		out = append(out, c.assignTo(s.X, v, false)...)
 		return append(out, rest()...)
@@ -2342,6 +2372,8 @@ func (c *gfCtx) assign(s *ast.AssignStmt) []string {
 		switch {
 		case isStringy(lt) && s.Tok == token.ADD_ASSIGN:
 			v = "(" + cur + " ++ " + r + ")"
+		case isRune(lt) && s.Tok == token.ADD_ASSIGN && c.isOne(s.Rhs[0]):
+			v = "(Go.runeSucc cx " + cur + ")"
 		case isInt(lt):
 			op := map[token.Token]string{token.ADD_ASSIGN: "+", token.SUB_ASSIGN: "-", token.MUL_ASSIGN: "*"}[s.Tok]
 			v = "(" + cur + " " + op + " " + r + ")"
